@@ -6,7 +6,7 @@ EXTENDS Integers, Sequences, FiniteSets, TLC, Json
 
 CONSTANTS Mode, Emit,
           \* C16
-          Revs, B64s, Jsonps, AEs, Thresholds, Flags, Sizes, Kinds, Js,
+          Revs, B64s, Jsonps, AEs, Thresholds, Flags, Sizes, Kinds, Js, Tails,
           \* C17
           Cookies, HsTransports, Policies, Creds, ReqOrigins, Preflights, Continues, Statuses, OuterVarys
 VARIABLE cell
@@ -102,16 +102,21 @@ CorsObsOK(c, o) ==
             ELSE o.status = 200 /\ o.created
 
 \* ---------------------------------------------------------------- cells
-RespCells == {[rev |-> r, b64 |-> b, jsonp |-> jp, ae |-> a, threshold |-> th, flag |-> f, size |-> s, kind |-> k, j |-> j] :
-                r \in Revs, b \in B64s, jp \in Jsonps, a \in AEs, th \in Thresholds, f \in Flags, s \in Sizes, k \in Kinds, j \in Js}
-ValidResp(c) == (c.jsonp => c.b64) /\ (~c.jsonp => c.j = "seven")
+\* tail: a packet of the transport's own in the same response as the application's batch ("close": the close packet of a graceful
+\* Close appended by the writer goroutine). Such packets carry no options: they ask for nothing (Asks is about the batch's flag)
+RespCells == {[rev |-> r, b64 |-> b, jsonp |-> jp, ae |-> a, threshold |-> th, flag |-> f, size |-> s, kind |-> k, j |-> j, tail |-> tl] :
+                r \in Revs, b \in B64s, jp \in Jsonps, a \in AEs, th \in Thresholds, f \in Flags, s \in Sizes, k \in Kinds, j \in Js, tl \in Tails}
+ValidResp(c) == (c.jsonp => c.b64) /\ (~c.jsonp => c.j = "seven") /\ (c.tail # "none" => c.rev = 4 /\ ~c.jsonp /\ c.kind = "text")
 \* hold: the handshaking goroutine is held inside or right after the construction of the session object (in a server-level
 \* flush/drain listener, or at the yield point after the constructor) while its open packet is already on its way out on
 \* another goroutine: cookie and header events must not depend on who is faster
-CookieCells == {[cookie |-> k, transport |-> t, step |-> st, hold |-> h] : k \in Cookies, t \in HsTransports,
+\* other: while this handshake is held, ANOTHER client's handshake is carried out from request to response (the cookie
+\* configuration is one object shared by all sessions: what one handshake prepares must not be what another one sends)
+CookieCells == {[cookie |-> k, transport |-> t, step |-> st, hold |-> h, other |-> ot] : k \in Cookies, t \in HsTransports,
                    st \in {"handshake", "poll", "post", "poll2", "postclose", "pollclose"},
-                   h \in {"none", "handshake.constructed", "S.flush", "S.drain"}}
+                   h \in {"none", "handshake.constructed", "S.flush", "S.drain"}, ot \in BOOLEAN}
 ValidCookie(c) == (c.transport = "polling" \/ c.step = "handshake") /\ (c.hold # "none" => c.step = "handshake" /\ c.transport = "polling")
+                  /\ (c.other => c.hold # "none")
 \* step: "first" = the request is a handshake (or a preflight); "bigpoll" = a later poll of the session whose response is large
 \* enough to be compressed (the transport adds headers of its own to such a response)
 \* outer: a Vary header an enclosing handler of the application has already put on the response ("none", "ae" = Accept-Encoding,
